@@ -41,8 +41,7 @@ UNPROVEN = [
             'the end-to-end theorems start from a fresh wavefront and use planes with array masks (scalar-mask planes inside the chain: plane_multiply_total only)',
             'planes re-used after the amplitude/OPD setters and copy(), and rescaled/resampled planes (bounding slices of the new mask): oracle only; the interpolation itself is C17',
             'partitions containing a segment (or producing an intermediate field) with exactly one element (known finding KF-C03-one-pixel-segment)']
-ASSUMPTIONS = ['a partition into k = 1 segment is given as the 2-D mask: a 3-D mask with a single layer makes Plane.multiply raise ValueError on the unchanged tree (reported with a candidate fix /tmp/wC/fix_single_layer.diff; single-layer cases are parked on branch wC-single-layer)',
-               'rescaled/resampled planes are judged only when Plane.rescale returns: for small segments the order-0 rescaled mask can lose a layer and rescale then raises IndexError in _plane_slice (C17; reported)',
+ASSUMPTIONS = ['rescaled/resampled planes are judged only when Plane.rescale returns: for small segments the order-0 rescaled mask can lose a layer and rescale then raises IndexError in _plane_slice (C17; reported)',
                'every segment bounding box and every intersection of boxes along the chain has more than one element (ExtOK: a condition on the bounding slices and shapes of the input, used by segmented_eq_monolithic_end_to_end)',
                'segment masks of one plane have pairwise disjoint supports']
 
@@ -59,7 +58,7 @@ def _split_plane(rng, mode, shape):
         def mk(ls):
             sc = int(rng.choice([1, 1, 1, 2, -1]))          # raw mask entries other than 0/1: the constructor normalises them
             return {'kind': 'pupil', 'amp': amp, 'opd': opd, 'px': None, 'fl': 1.0,
-                    'mask': {'shape': [int(shape[0]), int(shape[1])], 'ndim': 2 if len(ls) == 1 else 3,
+                    'mask': {'shape': [int(shape[0]), int(shape[1])], 'ndim': (2 if rng.integers(0, 2) else 3) if len(ls) == 1 else 3,
                              'layers': [[int(x) * sc for x in L.ravel()] for L in ls]}}
         return mk(layers), mk([M])
     raise RuntimeError('could not build a partition')
